@@ -57,7 +57,7 @@ def run(ctx):
                         mlocals.add(x)
     ctx.require(mlocals, 'R08.1: per-worker cancel map not found')
     pushb = set(bi for bi, t, c in oct_.calls() if c == 'alloc::vec::Vec::push' and bi in oct_.reachable() and mlocals & oct_.derived_from(op_local(t['args'][0])))
-    ctx.floor('R08.1', len(pushb), 4, 'pushes into the cancel map')
+    ctx.floor('R08.1', len(pushb), 1, 'pushes into the cancel map')
     for vs in ({'Assigned', 'Running'}, {'RunningMultiNode'}, {'Retracting'}, {'Prefilled'}):
         entries, region = oct_.arm_entries(TRS, vs, scrut)
         ctx.require(region, f'R08.1: no arm for {vs}')
@@ -79,6 +79,20 @@ def run(ctx):
     check_arm_effect(ctx, 'R08.1', oct_, OPTION, {'Some'}, Effect('collect_consumers', callees={TASK + '::collect_recursive_consumers'}), 'must', optk[0],
                      'every known id contributes its recursive consumers', exits=list(oct_.returns()) + loop_headers_containing(oct_, crc[0])[:1])
 
+    # an unknown id (already finished / forgotten) must not end the processing of the remaining ids
+    for hname in ('on_cancel_tasks', 'on_retract_response'):
+        hb_ = prog.body(REACTOR + hname)
+        for k_, d_ in scrutinees(hb_, OPTION).items():
+            if d_['root_callee'] not in reactor_table.FIND:
+                continue
+            ent_, reg_ = hb_.arm_entries(OPTION, {'None'}, k_)
+            hs_ = loop_headers_containing(hb_, ent_[0]) if ent_ else []
+            if not hs_:
+                continue
+            r_ = hb_.reach_from(ent_, avoid=hs_[:1])
+            leaves = [x for x in hb_.returns() if x in r_]
+            ctx.ob('R08.1', f'{hname}|unknown id continues the loop', not leaves and hs_[0] in hb_.reach_from(ent_),
+                   f'{hname}: an id that is no longer known is skipped (continue); leaving the handler there abandons the remaining ids of the message', hb_.loc(ent_[0]))
     # ---- R08.2
     rt = prog.body(CORE + 'remove_task')
     qrem = set(rt.call_blocks(TQ + 'remove'))
@@ -161,6 +175,15 @@ def run(ctx):
     vs = variants_at(pwm, TWM, cc[0])
     ctx.ob('R08.4', 'CancelTasks -> cancel_task for every id', vs is not None and set(vs) == {'CancelTasks'} and bool(loop_headers_containing(pwm, cc[0])),
            f'the CancelTasks message cancels every listed id (loop) (observed arm {sorted(vs) if vs else vs})', pwm.loc(cc[0]))
+    guards_ = []
+    for x in pwm.reachable():
+        si_ = pwm.switch_info(x)
+        if si_ and si_['kind'] == 'bool' and pwm.dominates(x, cc[0]) and (variants_at(pwm, TWM, x) or set()) == {'CancelTasks'}:
+            for y in pwm.derived_from(si_['local']):
+                for d_ in pwm.defs().get(y, ()):
+                    if d_[1] == 'call':
+                        guards_.append((callee_decl(d_[2]) or '').split('::')[-1])
+    ctx.ob('R08.4', 'CancelTasks|handled unconditionally', not guards_, f'no condition guards the handling of a CancelTasks message (observed guards: {sorted(set(guards_))}); an idle worker can still hold the task in its backlog', pwm.loc(cc[0]))
     # the rpc handler dispatches CancelTasks to cancel_task
     callers = set(o for o, b, bi in call_sites(prog, ct.path) if not is_test_util(o))
     ctx.ob('R08.4', 'cancel_task|called from worker message loop', any('worker::rpc' in c for c in callers), f'cancel_task is driven by the worker message handler (callers {sorted(callers)})', None)
